@@ -33,7 +33,7 @@ ASSUMPTIONS = ["relative order of enum-value vs enum-type hooks is not asserted 
 DNAMES = ["t1", "t2", "t3"]
 ALL_LOC = "SCALAR | ENUM | ENUM_VALUE | OBJECT | INTERFACE | UNION | INPUT_OBJECT | INPUT_FIELD_DEFINITION | ARGUMENT_DEFINITION | FIELD_DEFINITION | FIELD"
 SITES = ["S", "E", "E.A", "E.B", "In", "In.s", "In.e", "In.n", "In.l", "In2", "In2.s", "I", "T", "U", "T.s", "T.s.x", "T.e", "I.s", "I.s.x",
-         "Query.f", "Query.f.a", "Query.f.o", "Query.f.e", "Query.f.l", "Query.t", "Query.i", "Query.u", "Query.es", "Query.ts", "Query.g", "Query.g.a"]
+         "Query.f", "Query.f.a", "Query.f.o", "Query.f.e", "Query.f.l", "Query.t", "Query.i", "Query.u", "Query.es", "Query.ts", "Query.g", "Query.g.a", "Query.nnq", "Query.nne"]
 ENUM_VALUES = ("A", "B")
 
 
@@ -73,6 +73,8 @@ type Query {
   u: U%(Query.u)s
   es: [E]%(Query.es)s
   ts: [T]%(Query.ts)s
+  nnq: S!%(Query.nnq)s
+  nne: E!%(Query.nne)s
 }
 """ % dict({k: d(pl, k) for k in SITES}, loc=ALL_LOC)
 
@@ -156,7 +158,7 @@ class World:
                 return W.answer(key, parent, info)
             return r
 
-        for key in ("Query.f", "Query.g", "Query.t", "Query.i", "Query.u", "Query.es", "Query.ts", "T.s", "T.e"):
+        for key in ("Query.f", "Query.g", "Query.t", "Query.i", "Query.u", "Query.es", "Query.ts", "T.s", "T.e", "Query.nnq", "Query.nne"):
             Resolver(key, schema_name=name)(rec(key))
         self.engine = run_async(create_engine(sdl(pl), schema_name=name))
 
@@ -173,6 +175,8 @@ class World:
             return "s(%s)" % (parent.get("_trail", "") if isinstance(parent, dict) else "?")
         if key == "T.e":
             return "B"
+        if key in ("Query.nnq", "Query.nne"):
+            return None  # null at a non-null position: the output hooks of the type still govern this (null) value
         raise AssertionError(key)
 
 
@@ -345,6 +349,9 @@ def gen_request(c):
         n = c.weighted([(5, 0), (3, 1), (2, 2)])
         return [[dn, "q%d.%d" % (len(uses), k)] for k, dn in enumerate(c.shuffle(DNAMES)[:n])]
 
+    if c.maybe(6):
+        name = c.choice(["nnq", "nne"])
+        return {"uses": [{"alias": "k0", "name": name, "qdirs": qdirs(), "args": {}, "how": {}, "merged_qdirs": []}]}
     for _ in range(c.int(1, 4)):
         kind = c.weighted([(5, "f"), (2, "g"), (2, "t"), (1, "i"), (1, "u"), (1, "es"), (1, "ts")])
         alias = "k%d" % len(uses)
@@ -474,6 +481,12 @@ def expectation(pl, spec):
                 outs.append({"s": s, "e": "B"})
             exp_args[u["alias"]] = {}
             exp_data[u["alias"]] = outs if name == "ts" else outs[0]
+        elif name in ("nnq", "nne"):
+            m.field_exit(None, qtags, m.tags("Query." + name))
+            for t in m.tags("S" if name == "nnq" else "E"):
+                m.hit("out", t)
+            exp_args[u["alias"]] = {}
+            exp_data[u["alias"]] = None
         elif name == "es":
             for t in m.tags("Query.es"):
                 m.hit("field>", t)
@@ -496,9 +509,13 @@ def check(spec, world=None):
     resp = run_async(world.engine.execute(text, variables=variables))
     exp_args, exp_data, exp_counts = expectation(pl, spec)
     ctx = "\nSDL:%s\nquery:\n%s\nvariables=%r\nresponse=%s\nresolver args=%r\nhook log=%r" % (sdl(pl), text, variables, str(resp)[:1500], world.calls, world.log[:80])
-    if "errors" in resp:
+    null_root = any(u["name"] in ("nnq", "nne") for u in spec["uses"])
+    if null_root:
+        if resp.get("data") is not None or not resp.get("errors"):
+            raise Violation(spec, "null at a non-null root field must null data and report an error" + ctx, tag="nn")
+    elif "errors" in resp:
         raise Violation(spec, "unexpected errors" + ctx, tag="errors")
-    for u in spec["uses"]:
+    for u in ([] if null_root else spec["uses"]):
         al = u["alias"]
         got = world.calls.get(al)
         if got is None:
